@@ -40,7 +40,11 @@ def is_scalar(t):
 
 
 class Taint:
-    def __init__(self, repo, typer, encoders, max_depth=60):
+    def __init__(self, repo, typer, encoders, max_depth=60, scalars_clean=True, probe=None):
+        """scalars_clean=False + probe: an *origin* query -- probe(fn, node) is called for every expression node on the value
+        path of the queried expression, scalars included (used to ask "is this id computed by that lookup?")."""
+        self.scalars_clean = scalars_clean
+        self.probe = probe
         self.repo = repo
         self.ty = typer
         self.encoders = set(encoders)
@@ -74,8 +78,10 @@ class Taint:
             last = e["func"]["path"].split("::")[-1]
             if last in self.encoders:
                 return []
+        if self.probe is not None:
+            self.probe(fn, e)
         t = TY.strip(self.ty.of(e, env)) if env is not None else "?"
-        if is_scalar(t):
+        if is_scalar(t) and self.scalars_clean:
             return []
         if is_texty(t):
             return [self.desc(fn, e)]
